@@ -191,6 +191,23 @@ pub fn c01<T: Fx>(thorough: bool) -> Vec<CellDef> {
         for (sfx, sp) in pairs::<T>(thorough) {
             v.push(CellDef::new("C01", format!("{}/{}{}", T::NAME, OPS[op as usize], sfx), sp, move |k| bin_case::<T>(op, k)));
         }
+        if T::N == 32 || (T::N == 16 && !thorough) {
+            // the other operand solved so that the exact result sits on / next to a rounding boundary (see deep.rs)
+            let al = std::sync::Arc::new(crate::deep::operand_list(T::N, T::ES, if thorough { 300 } else { 60 }));
+            v.push(CellDef::new("C01", format!("{}/{}#solve", T::NAME, OPS[op as usize]), crate::deep::bin_solve_space(T::N, T::ES, op, al, if thorough { 5 } else { 3 }, "fraction shapes + unstructured fractions at a menu of scales"), move |k| bin_case::<T>(op, k)));
+        }
+        if T::N == 32 && op == 2 {
+            // products that are themselves unusually close to a rounding boundary (complete scan, stratified; see deep.rs)
+            let mut l: Vec<u128> = vec![];
+            for (a, b) in crate::deep::near_tie_pairs(32, 2, if thorough { 800 } else { 300 }, 6, if thorough { 100 } else { 24 }) {
+                l.push((a as u128) << 32 | b as u128);
+                l.push((b as u128) << 32 | a as u128);
+                l.push((a.wrapping_neg() as u128) << 32 | b as u128);
+            }
+            l.sort();
+            l.dedup();
+            v.push(CellDef::new("C01", "P32E2/mul#neartie", Space::list(l, "operand pairs (shapes + unstructured fractions at a menu of scales, complete cross product) whose exact product starts, below the guard bit, with a run of >= 6 zeros or ones; stratified by product scale x run length"), move |k| bin_case::<T>(op, k)));
+        }
         if T::N == 16 && op == 2 && !thorough {
             // (the thorough tier enumerates all 2^32 pairs anyway)
             let mut l: Vec<u128> = vec![];
